@@ -5749,6 +5749,9 @@ class CodegenCtx:
                         start_expr = "(*start)" if ProgramData.do(ProgramFlag.INDIRECT_START_PTR) else "start"
                         body.add(f"if ({'' if advanced else '++'}{start_expr} == end) return {self.program_name.upper()}_OK;")
                         body.add(f"inval = *{start_expr};")
+                    elif self._transition_advances_early(transition, is_end):
+                        # the byte goes to the handler unconsumed: take back the advance made for the yield on this transition
+                        body.add(f"--{'(*start)' if ProgramData.do(ProgramFlag.INDIRECT_START_PTR) else 'start'};")
                     body.add(f"goto repeatswitch;") # Fallthrough via switch
                 else:
                     body.add(f"return {self.program_name.upper()}_OK;") # end processing instructions
